@@ -472,6 +472,9 @@ def _index(p):
             kw["stop"] = q["stop"]
         if "dimensions" in q:
             kw["dimensions"] = q["dimensions"]
+        if q.get("dim_names"):
+            names = tuple("q%d" % n for n in q["dim_names"])
+            kw["dimensions"] = names if len(names) % 2 else numpoly.symbols(" ".join(names))   # a name tuple or the indeterminates
         if "cross_truncation" in q:
             kw["cross_truncation"] = _ct(q["cross_truncation"])
         if fn == "bindex":
